@@ -17,6 +17,13 @@ ASYMMETRY = {
                               "type-check)"},
 }
 
+# configuration B (descriptive-deserialize-errors) only
+ASYMMETRY_B = {
+    "enumerated": {"reader": {"decision:value-C::VARIANT_COUNT|0()"},
+                   "reason": "`if index >= C::VARIANT_COUNT { scope_description.push(warning) }` exists only in the diagnostic build and "
+                             "only pushes a description; C19.R1/R4 decide that gated code has no effect on decoding"},
+}
+
 FRAMING = {"with_buffer", "scope_stashed", "scope_pushed", "read_whole_sub_slice"}
 CURSOR_OPS = {"pos", "set_pos", "remaining", "len", "set_len", "with_read_position_at", "is_empty"}
 
@@ -91,6 +98,9 @@ def skeleton(ctx, body, depth=1, subst=None, seen=None):
         O = X.Origins(b, P)
         for cs in b.calls():
             args = O.call_args(cs)
+            if b is not body:
+                # what a closure captured is a value of the creating function
+                args = tuple(R.in_root_terms(P, b, a) if R.has_upvar(a) else a for a in args)
             el = element(P, b, cs, args, subst if b is body else None, R.ALL)
             for a in args:
                 # `T::read_value` / `T::write_value` handed over as a function item (scope_stashed(T::read_value))
@@ -256,10 +266,14 @@ def r2(ctx, rule="C01.R2", kinds=None):
         detail = {"writer": sorted(fmt(d) for d in kw), "reader": sorted(fmt(d) for d in kr)}
         bad = False
         asym = ASYMMETRY.get(name, {})
+        asym_b = ASYMMETRY_B.get(name, {}) if ctx.default_config == "B" else {}
         for d in sorted(kw ^ kr):
             side = "writer" if d in kw else "reader"
             if fmt(d) in asym.get(side, ()):
                 detail["declared_asymmetry"] = asym["reason"]
+                continue
+            if fmt(d) in asym_b.get(side, ()):
+                detail["declared_asymmetry"] = asym_b["reason"]
                 continue
             src = sw if d in kw else sr
             cs = (src.get(d) or [None])[0]
